@@ -131,7 +131,12 @@ def check_trim(F, s):
 
 def check_decode(F, enc, x, expect):
     try:
-        out = getattr(F.decode, enc)(x)
+        # the decoder is looked up, then decoders for other charsets are looked up, then it is called: what
+        # decode.<enc> means is fixed when it is written, not when it is used
+        dec = getattr(F.decode, enc)
+        for other in ("ascii", "latin1", "utf_16", "cp1251"):
+            getattr(F.decode, other)
+        out = dec(x)
     except Exception as e:
         raise fail("decode." + enc, x, "raised %r" % e, "decode:raised")
     if type(out) is not str or out != expect:
